@@ -54,7 +54,7 @@ func init() {
 			"go-map", "go-time", "go-uint-high", "go-nested", "go-false", "go-float",
 			"op-set", "op-get", "op-has", "op-walk", "op-remove", "negative-index", "wildcard", "descent",
 			"null-member-matched", "set-took-effect", "frame-locations-checked", "remove-of-existing", "path-matches-many",
-			"set-refused", "termination-case",
+			"set-refused", "termination-case", "no-path-argument", "method-form-compared",
 		},
 		CaseDeadlineS: 8,
 		Bound:         bound,
@@ -64,9 +64,9 @@ func init() {
 
 func bfsDepth(tier string) int {
 	if tier == engine.Thorough {
-		return 5 // initial document + 4 operations
+		return 7 // initial document + 6 operations
 	}
-	return 4 // initial document + 3 operations
+	return 5 // initial document + 4 operations
 }
 
 func enumerate(tier string, emit func(string)) {
@@ -102,21 +102,26 @@ func bound(tier string) string {
 		gb = 5
 	}
 	ops := bfsOps(tier)
-	nInit := 0
+	nInit, paths := 0, map[string]bool{}
 	for _, o := range ops {
-		if strings.HasPrefix(o, "init|") {
+		parts := strings.Split(o, "|")
+		if parts[0] == "init" {
 			nInit++
+		} else {
+			paths[parts[1]] = true
 		}
 	}
 	docs := "every tree with <= 4 nodes over 14 scalars (+ [] and {}), 2 single-member keys"
 	if tier == engine.Thorough {
 		docs = "every tree with <= 4 nodes over 24 scalars (+ [] and {}), 6 single-member keys, and every tree with exactly 5 nodes over 14 scalars, 2 single-member keys"
 	}
-	return fmt.Sprintf("documents: %s, each as JSON and as SEN "+
-		"text, x %d write option sets + 2 native round trips; Go values: %d typed scalars alone / in a slice / in a map + every tree with <= %d "+
-		"nodes over %d scalars; histories: %d initial documents then up to %d operations from %d (set/remove/get/has/walk x %d paths x values)",
+	return fmt.Sprintf("documents: %s, each as JSON and as SEN text, x %d write option sets + 2 native round trips; "+
+		"Go values: %d typed scalars alone / in a slice / in a map + every tree with <= %d nodes over %d scalars; "+
+		"histories: %d initial documents then every sequence of up to %d operations out of %d (get/has/walk/remove x %d paths incl. 'no path', "+
+		"set x paths x %d values), function form checked against the reference and against the method form; "+
+		"the descent-set-of-a-container-on-a-shared-state operations are stepped around in the BFS (they do not return) and run in child processes instead",
 		docs, len(writeOpts(true)), len(goScalarsAll), gb, len(goScalarsNested),
-		nInit, bfsDepth(tier)-1, len(ops)-nInit, (len(ops)-nInit)/(4+len(setValuesFor(tier))))
+		nInit, bfsDepth(tier)-1, len(ops)-nInit, len(paths), len(setValuesFor(tier)))
 }
 
 func setValuesFor(tier string) []setValue {
@@ -241,7 +246,9 @@ func selftest(tier string) (killed, total int, notes []string) {
 				docs = append(docs, d)
 			}
 		default:
-			paths[parts[1]] = true
+			if parts[1] != "-" {
+				paths[parts[1]] = true
+			}
 		}
 	}
 	observe := func(doc any, p jsonpath.Path, m jsonpath.Mutation) string {
